@@ -43,7 +43,8 @@ def _wrapped_svd_qn(coef_array, qnbigl, qnbigr, qntot, QR=False, system=None, fu
         rows = int(np.prod(qnbigl.shape[:-1]))
         cols = int(np.prod(qnbigr.shape[:-1]))
         M = np.asarray(coef_array).reshape(rows, cols)
-        nM = max(np.linalg.norm(M), 1e-300)
+        nM = np.linalg.norm(M)
+        nM = nM if nM > 0 else 1.0          # an exactly zero input: residual must be exactly zero as well
         STATE["calls"] += 1
         if QR:
             STATE["qr"] += 1
@@ -64,7 +65,7 @@ def _wrapped_svd_qn(coef_array, qnbigl, qnbigr, qntot, QR=False, system=None, fu
             orth = max(np.abs(u.conj().T @ u - np.eye(k)).max(), np.abs(v.conj().T @ v - np.eye(k)).max()) if k else 0.0
             shape_ok = (u.shape == (rows, k) and v.shape == (cols, k) and len(s) == k and len(ql) == k and len(qr_) == k
                         and (full_matrices or k <= min(rows, cols))
-                        and bool(np.all(np.asarray(s) >= 0)) and bool(np.all(np.diff(np.asarray(s)) <= 1e-12 * max(1.0, float(np.max(s)) if k else 1.0))))
+                        and bool(np.all(np.asarray(s) >= 0)) and bool(np.all(np.diff(np.asarray(s)) <= 1e-12 * (float(np.max(s)) if k else 0.0))))
         # block (label) contract, exact on integers: column a of U is supported on rows labelled qnlset[a],
         # column a of V on columns labelled qnrset[a], and qnlset[a] + qnrset[a] = qntot
         if not (not QR and full_matrices):
@@ -127,7 +128,11 @@ def install():
 
 # --------------------------------------------------------------------------------------- oracle helpers
 def relerr(a, b):
-    return float(np.linalg.norm(a - b) / max(np.linalg.norm(b), 1e-300))
+    nb = float(np.linalg.norm(b))       # purely relative: no absolute floor
+    na = float(np.linalg.norm(a - b))
+    if nb == 0.0:
+        return 0.0 if na == 0.0 else float("inf")
+    return na / nb
 
 
 def site_iso(a, left, scaled):
@@ -245,7 +250,7 @@ class Case:
         st["max_dense_err"] = max(st.get("max_dense_err", 0.0), e)
         if not e <= TOL:
             self.fail("dense", op, {"relerr": e})
-        if abs(complex(getattr(mp, "coeff", 1)) - before["coeff"]) > 1e-15 * max(1.0, abs(before["coeff"])):
+        if abs(complex(getattr(mp, "coeff", 1)) - before["coeff"]) > 1e-14 * abs(before["coeff"]):
             self.fail("coeff", op, {"before": str(before["coeff"]), "after": str(getattr(mp, "coeff", 1))})
         if not np.array_equal(np.array(mp.qntot), before["qntot"]):
             self.fail("qntot", op, {"before": before["qntot"].tolist(), "after": np.array(mp.qntot).tolist()})
@@ -450,7 +455,109 @@ def run_case(ci, spec, out):
             F.to_right = not to_right
             _, rec = c.run_op("cano", F, lambda: F.canonicalise(), {"stop": None})
             st["malformed"] = st.get("malformed", 0) + 1
+    if spec["kind"] in ("mps", "mpo", "mpdm") and not spec["recipe"].startswith("near_") and out.get("scale_every", 1) and ci % out.get("scale_every", 1) == 0:
+        scale_stream(c, obj, spec, n, is_op, keep_flags)
     return c
+
+
+SCALES = [1e-30, 1e-12, 1e-9, 1e-6, 1e6, 1e12, 1e30]
+
+
+def lossless_configs():
+    return [("fixed", CompressConfig(CompressCriteria.fixed, max_bonddim=1000)),
+            ("threshold", CompressConfig(CompressCriteria.threshold, threshold=1e-14)),
+            ("both", CompressConfig(CompressCriteria.both, threshold=1e-14, max_bonddim=1000))]
+
+
+def scale_stream(c, obj, spec, n, is_op, keep_flags):
+    """SCALE stream: every lossless operation on the same object with its norm moved to 1e-30 .. 1e30, in the tensors
+    (scale(c), c real or complex) or in the prefactor.  All comparisons are relative; Schmidt ranks (dense SVD, relative
+    to the largest singular value) must survive; compress(c*a) = c*compress(a)."""
+    st = c.out["stats"]
+    rng = random.Random(spec["seed"] + 29)
+    base_dirs = (bool(obj.to_right),) if keep_flags else (True, False)
+    # unscaled references for homogeneity (config-driven lossless compress of the canonical form)
+    base = {}
+    for to_right in base_dirs:
+        P0 = obj.copy() if keep_flags else set_direction(obj.copy(), to_right)
+        try:
+            A0 = P0.copy().canonicalise()
+            for cname, cfg in lossless_configs():
+                Q0 = A0.copy()
+                Q0.compress_config = cfg
+                Q0.compress()
+                base[(to_right, cname)] = G.dense(Q0)
+        except Exception:
+            return      # failures on the unscaled object are reported by the main stream
+    picks = [rng.choice(SCALES[:4]), rng.choice(SCALES[4:])]
+    for cval in picks:
+        fac = cval * (np.exp(1j * rng.uniform(0, 6.28)) if rng.random() < 0.4 else (1.0 if rng.random() < 0.7 else -1.0))
+        where = "coeff" if (hasattr(obj, "coeff") and rng.random() < 0.35) else "tensor"
+        X = obj.copy()
+        if where == "tensor":
+            X = X.scale(fac)
+        else:
+            X.coeff = X.coeff * fac
+        ref = G.dense(X)
+        if not np.all(np.isfinite(ref)) or not np.linalg.norm(ref) > 0:
+            continue
+        ranks = schmidt_ranks(X)
+        tag = "scale[%s,%.0e]:" % (where, cval)
+        st["scale_objects"] = st.get("scale_objects", 0) + 1
+
+        def chk(op, mp, want=ref):
+            e = relerr(G.dense(mp), want)
+            st["scale_checks"] = st.get("scale_checks", 0) + 1
+            st["max_scale_relerr"] = max(st.get("max_scale_relerr", 0.0), e if np.isfinite(e) else 1e300)
+            if not e <= TOL:
+                c.fail("scale_dense", tag + op, {"relerr": e, "factor": str(fac), "where": where})
+            r2 = schmidt_ranks(mp)
+            if r2 != ranks:
+                c.fail("scale_ranks", tag + op, {"ranks_before": ranks, "ranks_after": r2, "factor": str(fac), "where": where})
+
+        for to_right in base_dirs:
+            P = X.copy() if keep_flags else set_direction(X.copy(), to_right)
+            A = P.copy()
+            _, rec = c.run_op("cano", A, lambda: A.canonicalise(), {"stop": None})
+            if rec["exc"]:
+                c.fail("raise", tag + "cano", {"exc": rec["exc"], "tb": rec.get("tb")})
+                continue
+            chk("cano", A)
+            c.iso_checks(tag + "cano", A, to_right, n - 1 if to_right else 0, is_op)
+            stop = rng.randrange(n)
+            S = P.copy()
+            _, rec = c.run_op("cano", S, lambda: S.canonicalise(stop_idx=stop), {"stop": stop})
+            if rec["exc"]:
+                c.fail("raise", tag + "cano_stop", {"exc": rec["exc"], "tb": rec.get("tb")})
+            else:
+                chk("cano_stop", S)
+            for cname, cfg in lossless_configs():
+                Q = A.copy()
+                Q.compress_config = cfg
+                _, rec = c.run_op("compress", Q, lambda: Q.compress(), {"variant": "cfg_" + cname})
+                if rec["exc"]:
+                    c.fail("raise", tag + "compress_cfg_" + cname, {"exc": rec["exc"], "tb": rec.get("tb")})
+                    continue
+                chk("compress_cfg_" + cname, Q)
+                # homogeneity: compress(c*a) = c*compress(a)
+                chk("homogeneity_" + cname, Q, want=fac * base[(to_right, cname)])
+                if not is_op:
+                    c.iso_checks(tag + "compress_cfg_" + cname, Q, not to_right, 0 if to_right else n - 1, False)
+            Q = A.copy()
+            lim = max(int(x) for x in A.bond_dims) + 1
+            _, rec = c.run_op("compress", Q, lambda: Q.compress(temp_m_trunc=lim), {"variant": "big"})
+            if rec["exc"]:
+                c.fail("raise", tag + "compress_big", {"exc": rec["exc"], "tb": rec.get("tb")})
+            else:
+                chk("compress_big", Q)
+            for which in ("left", "right"):
+                E = P.copy()
+                fn = (lambda: E.ensure_left_canonical()) if which == "left" else (lambda: E.ensure_right_canonical())
+                _, rec = c.run_op("ensure_" + which, E, fn, {"chk": bool(E.check_left_canonical() if which == "left" else E.check_right_canonical())})
+                if rec["exc"]:
+                    c.fail("raise", tag + "ensure_" + which, {"exc": rec["exc"], "tb": rec.get("tb")})
+                else:
+                    chk("ensure_" + which, E)
 
 
 def schmidt_ranks(mp):
@@ -495,7 +602,8 @@ def emit(payload, out):
 def main():
     payload = json.load(sys.stdin)
     install()
-    out = {"ops": [], "fails": [], "stats": {}, "features": [], "label_budget": int(payload.get("label_budget", 0))}
+    out = {"ops": [], "fails": [], "stats": {}, "features": [], "label_budget": int(payload.get("label_budget", 0)),
+           "scale_every": int(payload.get("scale_every", 1))}
     for ci, spec in payload["specs"]:
         try:
             run_case(ci, spec, out)
